@@ -130,6 +130,20 @@ def ruamel_pairs(text: str):
     return [(sc[i].value, sc[i + 1].value) for i in range(0, len(sc), 2)]
 
 
+_HANGS = {"n": 0}     # non-terminating inputs met by this worker process
+
+
+def _stop_after_hangs(acc) -> bool:
+    """An enumeration that keeps meeting non-terminating inputs has made its point: stop the shard (each costs the
+    watchdog's 5 s, and a hang usually affects a whole family of inputs)."""
+    if _HANGS["n"] >= 3:
+        acc.exhaustive = False
+        if not any("non-terminating" in n for n in acc.notes):
+            acc.notes.append("enumeration stopped after 3 non-terminating inputs")
+        return True
+    return False
+
+
 def check_text(acc: Acc | None, text: str) -> list[dict]:
     """The plain oracle on one text."""
     from myst_parser.parsers.options import TokenizeError, options_to_items
@@ -139,12 +153,13 @@ def check_text(acc: Acc | None, text: str) -> list[dict]:
     err = None
     got = None
     try:
-        with watchdog(20):
+        with watchdog(5):
             got = [tuple(p) for p in options_to_items(text)[0]]
     except TokenizeError as exc:
         err = exc
     except CaseTimeout:
-        return [mk("C07:nontermination", text, "terminates", "no result after 20s")]
+        _HANGS["n"] += 1
+        return [mk("C07:nontermination", text, "terminates", "no result after 5 s (inputs are at most a few dozen characters)")]
     except RecursionError:
         return [mk("C07:exc:RecursionError", text, "pairs or TokenizeError", "RecursionError")]
     except Exception as exc:  # noqa: BLE001
@@ -249,6 +264,8 @@ def sub_enum(acc: Acc, shard: int, nshards: int, tier: str, seed: int) -> None:
             if i % nshards != shard:
                 continue
             text = "".join(tup)
+            if _stop_after_hangs(acc):
+                return
             for v in check_text(acc, text):
                 if kn.matches(v):
                     acc.known_hits[v["signature"]] += 1
@@ -283,6 +300,8 @@ def sub_enum_rooted(acc: Acc, shard: int, nshards: int, tier: str, seed: int) ->
                 if i % nshards != shard:
                     continue
                 text = prefix + "".join(tup)
+                if _stop_after_hangs(acc):
+                    return
                 for v in check_text(acc, text):
                     if kn.matches(v):
                         acc.known_hits[v["signature"]] += 1
@@ -312,6 +331,8 @@ def sub_enum_rooted(acc: Acc, shard: int, nshards: int, tier: str, seed: int) ->
                     continue
                 n_esc += 1
                 text = tmpl.format(L=letter, B=body)
+                if _stop_after_hangs(acc):
+                    return
                 for v in check_text(acc, text):
                     if kn.matches(v):
                         acc.known_hits[v["signature"]] += 1
